@@ -13,7 +13,9 @@ def LoadOk (n : Name) (lim : Limit) (r : Option Err) (s' : State) : Prop :=
 def Post (fault : Option Item) : Call → State → R → Prop
   | .ltc n, s, r => LtcPost W L U n s r
   | .imp _, s, r => Rel W L U s r.2 ∧ r.2.blocks = s.blocks
-  | .load n lim, s, r => Rel W L U s r.2 ∧ r.2.blocks = s.blocks ∧ (fault = none → LoadOk W L n lim r.1 r.2)
+  | .load _ _, s, r => Rel W L U s r.2 ∧ r.2.blocks = s.blocks
+  -- (that a load without a fault returns the specification is `loadBody_post` / `exec_load_ok`; it is not needed of
+  --  the recursive calls, which matters for several users: a module's load_theory call works on master's library)
 
 def RecOk (fault : Option Item) (rec : Call → State → R) : Prop :=
   ∀ c s, Inv W L U s → Post W L U fault c s (rec c s)
@@ -125,7 +127,7 @@ theorem runActs_post {fault : Option Item} {rec : Call → State → R} (hrec : 
       have hp := hrec (.load n .none) s hi
       rcases hr : rec (.load n .none) s with ⟨r1, s1⟩
       rw [hr] at hp
-      obtain ⟨h1, h2, _⟩ := hp
+      obtain ⟨h1, h2⟩ := hp
       cases r1 with
       | some e => exact ⟨h1, h2⟩
       | none =>
@@ -278,14 +280,21 @@ theorem exec_post (fault : Option Item) : ∀ f, RecOk W L U fault (exec W fault
     cases c with
     | ltc n => exact ⟨Rel.refl hi, rfl, rfl, fun h => by simp [exec] at h⟩
     | imp m => exact ⟨Rel.refl hi, rfl⟩
-    | load n lim => exact ⟨Rel.refl hi, rfl, fun _ h => by simp [exec] at h⟩
+    | load n lim => exact ⟨Rel.refl hi, rfl⟩
   | succ f ih =>
     intro c s hi
     cases c with
     | ltc n => exact ltcBody_post W L U ih n hi
     | imp m => exact impBody_post W L U ih m hi
     | load n lim =>
-      obtain ⟨h1, h2, h3⟩ := loadBody_post W L U ih n lim hi
-      exact ⟨h1, h2, fun _ => h3⟩
+      obtain ⟨h1, h2, _⟩ := loadBody_post W L U ih n lim hi
+      exact ⟨h1, h2⟩
+
+/-- `load_theory(n, lim)` without an injected fault returns the specification -/
+theorem exec_load_ok (f : Nat) (n : Name) (lim : Limit) (s : State) (hi : Inv W L U s) :
+    LoadOk W L n lim (exec W none f (.load n lim) s).1 (exec W none f (.load n lim) s).2 := by
+  cases f with
+  | zero => intro h; simp [exec] at h
+  | succ f => exact (loadBody_post W L U (exec_post W L U none f) n lim hi).2.2
 
 end Holpy.C12
